@@ -33,24 +33,60 @@ theorem objIdx : (mk [] none []).mutexObj 0 = 0 ∧ (mk [] none []).rwObj 0 = 1 
 def objs0 : Objs := [.mutex {}, .rwlock {}, .condvar {}, .notify { spurious := true },
   .notify { seqCst := true }, .notify { seqCst := true }]
 
-/-! ### F9: a pending `try_lock` is disabled by another thread's acquisition -/
+/-! ### F9 (repaired): a pending `try_lock` is NOT disabled by another thread's acquisition -/
 
 /-- thread 1 has passed the branch point of `try_lock` (stage 0 recorded the operation
-`⟨mutex, opaque⟩` — the same record a blocking `lock` leaves) and is runnable; thread 0 is active
-in the second stage of its own `try_lock`; the mutex is free -/
+`⟨mutex, opaque, blocking := false⟩`; a blocking `lock` records `blocking := true`) and is runnable; thread 0 is
+active in the second stage of its own `try_lock`; the mutex is free -/
 def wF9 : World :=
   mk [{ causality := vv [1, 0, 0, 0, 0] },
-      { operation := some ⟨0, .opaque⟩, causality := vv [1, 1, 0, 0, 0] }] (some 0) objs0
+      { operation := some ⟨0, .opaque, false⟩, causality := vv [1, 1, 0, 0, 0] }] (some 0) objs0
 
 theorem F9_before : (wF9.ths.get 1).state = .runnable ∧
-    (wF9.ths.get 1).operation = some ⟨wF9.mutexObj 0, .opaque⟩ := by decide
+    (wF9.ths.get 1).operation = some ⟨wF9.mutexObj 0, .opaque, false⟩ := by decide
 
-/-- thread 0's `try_lock` succeeds (returns 1) and thread 1 — which only wants to TRY — is set
-`blocked` -/
+/-- thread 0's `try_lock` succeeds (returns 1) and thread 1 — which only wants to TRY — stays `runnable`: its
+whole entry is unchanged.  (Before the repair it was set `blocked`.) -/
 theorem F9_after :
     (wF9.runOp { stage := 1 } (.tryLock 0)).toOption.map
-      (fun w' => ((w'.ths.get 1).state, w'.events.head?.map (·.ret))) =
-    some (.blocked, some (.val 1)) := by decide +kernel
+      (fun w' => ((w'.ths.get 1).state, decide (w'.ths.get 1 = wF9.ths.get 1),
+        w'.events.head?.map (·.ret))) =
+    some (.runnable, true, some (.val 1)) := by decide +kernel
+
+/-- the continuation: thread 1 is scheduled and runs the second stage of its `try_lock` while thread 0 holds
+the mutex: it returns 0 (`false`), the mutex is still held by thread 0, thread 1 is still runnable -/
+def wF9run : Except Panic World := do
+  let w ← wF9.runOp { stage := 1 } (.tryLock 0)
+  let w := w.setThs { w.ths with active := some 1 }
+  w.runOp { body := 1, stage := 1 } (.tryLock 0)
+
+theorem F9_later_try_fails :
+    wF9run.toOption.map (fun w' => (w'.events.head?.map (·.ret),
+      (w'.getMutex 0).toOption.map (·.lock), (w'.ths.get 1).state)) =
+    some (some (.val 0), some (some 0), .runnable) := by decide +kernel
+
+/-- the same state with thread 1 WAITING for the mutex (it has passed the branch point of a blocking `lock`:
+`blocking := true`): thread 0's acquisition sets it `blocked` -/
+def wF9w : World :=
+  mk [{ causality := vv [1, 0, 0, 0, 0] },
+      { operation := some ⟨0, .opaque, true⟩, causality := vv [1, 1, 0, 0, 0] }] (some 0) objs0
+
+theorem F9_waiter_blocked :
+    (wF9w.runOp { stage := 1 } (.tryLock 0)).toOption.map
+      (fun w' => ((w'.ths.get 1).state, (w'.ths.get 1).parked, w'.events.head?.map (·.ret))) =
+    some (.blocked, false, some (.val 1)) := by decide +kernel
+
+/-- what the first stages record: thread 1, active with no pending operation and the mutex free, runs stage 0
+of `try_lock` / of `lock`: the pending operation is `⟨mutex, opaque, false⟩` / `⟨mutex, opaque, true⟩` -/
+def wF9s : World :=
+  mk [{ causality := vv [1, 0, 0, 0, 0] }, { causality := vv [1, 1, 0, 0, 0] }] (some 1) objs0
+
+theorem F9_records :
+    (wF9s.runOp { body := 1 } (.tryLock 0)).toOption.map (fun w' => (w'.ths.get 1).operation) =
+      some (some ⟨0, .opaque, false⟩) ∧
+    (wF9s.runOp { body := 1 } (.lock 0)).toOption.map (fun w' => (w'.ths.get 1).operation) =
+      some (some ⟨0, .opaque, true⟩) := by
+  constructor <;> decide +kernel
 
 /-- the reference semantics in the corresponding state (mutex held by thread 0, thread 1 at its
 `try_lock`): thread 1 is enabled -/
@@ -67,7 +103,7 @@ theorem F9_reference : SC.enabled wF9.prog sF9 1 = true ∧
 /-- thread 0 holds the mutex; thread 1 is blocked in `lock` (stage 0 found the mutex held) -/
 def wF5 : World :=
   mk [{ causality := vv [3, 0, 0, 0, 0] },
-      { state := .blocked, operation := some ⟨0, .opaque⟩, causality := vv [1, 1, 0, 0, 0] }]
+      { state := .blocked, operation := some ⟨0, .opaque, true⟩, causality := vv [1, 1, 0, 0, 0] }]
     (some 0) [.mutex { lock := some 0 }, .rwlock {}, .condvar {}, .notify { spurious := true },
       .notify { seqCst := true }, .notify { seqCst := true }]
 
@@ -109,7 +145,7 @@ held by thread 0 — still panics in the model ("expected to be able to acquire 
 produces it.  (Also used as an example of a failing `try_lock`, `Lock.tryLock_examples`.) -/
 def wF5' : World :=
   mk [{ causality := vv [3, 0, 0, 0, 0] },
-      { operation := some ⟨0, .opaque⟩, causality := vv [3, 1, 0, 0, 0] }]
+      { operation := some ⟨0, .opaque, true⟩, causality := vv [3, 1, 0, 0, 0] }]
     (some 1) [.mutex { lock := some 0 }, .rwlock {}, .condvar {}, .notify { spurious := true },
       .notify { seqCst := true }, .notify { seqCst := true }]
 
@@ -121,7 +157,7 @@ theorem F5_old_state_panics :
 thread 2 unparks it: it STAYS blocked and keeps the token (before the repair it became runnable and its
 `join` panicked on `assert!(state.notified)`) -/
 def wF6 : World :=
-  mk [{ state := .blocked, operation := some ⟨4, .opaque⟩ }, {}, { causality := vv [1, 0, 1, 0, 0] }]
+  mk [{ state := .blocked, operation := some ⟨4, .opaque, true⟩ }, {}, { causality := vv [1, 0, 1, 0, 0] }]
     (some 2) objs0
 
 theorem F6_unpark :
@@ -145,22 +181,36 @@ theorem F6_no_panic :
 /-- the state the old defect led to — thread 0 runnable in the second stage of `join 1` although object 4 is
 not notified — still panics in the model (`assert!(state.notified)`); `unpark` no longer produces it -/
 def wF6old : World :=
-  mk [{ operation := some ⟨4, .opaque⟩ }, {}, {}] (some 0) objs0
+  mk [{ operation := some ⟨4, .opaque, true⟩ }, {}, {}] (some 0) objs0
 
 theorem F6_old_state_panics :
     (match wF6old.runOp { stage := 1 } (.join 1) with
       | .error .notNotified => true | _ => false) = true := by decide +kernel
 
-/-! ### F17: `unpark` raises the target's causality immediately -/
+/-! ### F17 (repaired): `unpark` orders nothing until a `park` consumes it -/
 
-/-- thread 1 is runnable and never parks; thread 0 (causality `[5,0,0,0,0]`) unparks it -/
+/-- thread 1 is runnable and is not parked; thread 0 (causality `[5,0,0,0,0]`) unparks it -/
 def wF17 : World :=
   mk [{ causality := vv [5, 0, 0, 0, 0] }, { causality := vv [1, 1, 0, 0, 0] }] (some 0) objs0
 
+/-- the target's causality is what it was; the unparker's causality is stored in `unparkCaus`; the target is
+still runnable and holds the token.  (Before the repair its causality rose to `[5,1,0,0,0]` at once.) -/
 theorem F17_unpark :
-    ((wF17.ths.unpark 1).get 1).causality = vv [5, 1, 0, 0, 0] ∧
+    ((wF17.ths.unpark 1).get 1).causality = vv [1, 1, 0, 0, 0] ∧
+    ((wF17.ths.unpark 1).get 1).unparkCaus = vv [5, 0, 0, 0, 0] ∧
     ((wF17.ths.unpark 1).get 1).state = .runnable ∧
     ((wF17.ths.unpark 1).get 1).token = true := by decide +kernel
+
+/-- the continuation: thread 1 is scheduled and calls `park`: the token is consumed, the call returns at once
+and NOW its causality is above the unparker's -/
+def wF17park : Except Panic World :=
+  let w := wF17.setThs (wF17.ths.unpark 1)
+  (w.setThs { w.ths with active := some 1 }).parkNow
+
+theorem F17_park_acquires :
+    wF17park.toOption.map (fun w' => ((w'.ths.get 1).causality, (w'.ths.get 1).unparkCaus,
+      (w'.ths.get 1).token, (w'.ths.get 1).state, w'.ths.active)) =
+    some (vv [5, 1, 0, 0, 0], VV.zero, false, .runnable, some 1) := by decide +kernel
 
 /-! ### F18 (repaired): no release, and no blocking, loses a pending unpark token -/
 
@@ -168,7 +218,7 @@ theorem F17_unpark :
 the mutex; thread 0 releases the mutex -/
 def wF18 : World :=
   mk [{ causality := vv [2, 0, 0, 0, 0] },
-      { token := true, operation := some ⟨0, .opaque⟩ }]
+      { token := true, operation := some ⟨0, .opaque, true⟩ }]
     (some 0) [.mutex { lock := some 0 }, .rwlock {}, .condvar {}, .notify { spurious := true },
       .notify { seqCst := true }, .notify { seqCst := true }]
 
@@ -181,7 +231,7 @@ theorem F18_token_kept :
 as in `F5_unpark`): the release wakes it, and the token is still there -/
 def wF18b : World :=
   mk [{ causality := vv [2, 0, 0, 0, 0] },
-      { state := .blocked, token := true, operation := some ⟨0, .opaque⟩ }]
+      { state := .blocked, token := true, operation := some ⟨0, .opaque, true⟩ }]
     (some 0) [.mutex { lock := some 0 }, .rwlock {}, .condvar {}, .notify { spurious := true },
       .notify { seqCst := true }, .notify { seqCst := true }]
 
@@ -219,6 +269,53 @@ theorem park_blocks :
     (wF17.parkNow).toOption.map
       (fun w' => ((w'.ths.get 0).state, (w'.ths.get 0).parked, (w'.ths.get 0).token, w'.ths.active)) =
     some (.blocked, true, false, some 1) := by decide +kernel
+
+/-! ### F15 (repaired): a condvar waiter is not woken by `unpark`, and a stored unpark is not a notification -/
+
+/-- thread 1 waits on the condvar (object 2): it blocked itself with `rt::block` — `blocked`, NOT `parked`, no
+pending operation — and is the only element of `waiters`; thread 0 is active -/
+def wF15 : World :=
+  mk [{ causality := vv [4, 0, 0, 0, 0] },
+      { state := .blocked, causality := vv [1, 1, 0, 0, 0] }] (some 0)
+    [.mutex {}, .rwlock {}, .condvar { waiters := [1] }, .notify { spurious := true },
+      .notify { seqCst := true }, .notify { seqCst := true }]
+
+/-- thread 0's `unpark 1` leaves the waiter BLOCKED and in the queue; the unpark is stored as a token and
+orders nothing (causality unchanged) -/
+theorem F15_unpark_does_not_wake :
+    (wF15.runOp {} (.unpark 1)).toOption.map
+      (fun w' => ((w'.ths.get 1).state, (w'.ths.get 1).token, (w'.ths.get 1).parked)) =
+      some (.blocked, true, false) ∧
+    (wF15.runOp {} (.unpark 1)).toOption.map
+      (fun w' => ((w'.ths.get 1).causality, (w'.getCv 2).toOption.map (·.waiters))) =
+      some (vv [1, 1, 0, 0, 0], some [1]) := by
+  constructor <;> decide +kernel
+
+/-- thread 0's `notify_one` (second stage) wakes it: runnable, the notifier's causality joined, the queue empty,
+no token handed out -/
+theorem F15_notify_wakes :
+    (wF15.runOp { stage := 1 } (.cvOne 0)).toOption.map
+      (fun w' => ((w'.ths.get 1).state, (w'.ths.get 1).token, (w'.ths.get 1).causality,
+        (w'.getCv 2).toOption.map (·.waiters))) =
+    some (.runnable, false, vv [4, 1, 0, 0, 0], some []) := by decide +kernel
+
+/-- thread 1, active, holds the mutex and HAS a stored unpark token; it runs stage 1 of `Condvar::wait`: it
+enqueues itself, releases the mutex and BLOCKS (not parked) — the token neither makes the wait return nor is
+consumed; thread 0 runs.  (Before the repair the wait went through `rt::park`, consumed the token and returned
+without any notification.) -/
+def wF15t : World :=
+  mk [{ causality := vv [2, 0, 0, 0, 0] }, { token := true, causality := vv [1, 1, 0, 0, 0] }]
+    (some 1) [.mutex { lock := some 1 }, .rwlock {}, .condvar {}, .notify { spurious := true },
+      .notify { seqCst := true }, .notify { seqCst := true }]
+
+theorem F15_token_is_no_notification :
+    (wF15t.runOp { body := 1, stage := 1 } (.cvWait 0 0)).toOption.map
+      (fun w' => ((w'.ths.get 1).state, (w'.ths.get 1).parked, (w'.ths.get 1).token, w'.ths.active)) =
+      some (.blocked, false, true, some 0) ∧
+    (wF15t.runOp { body := 1, stage := 1 } (.cvWait 0 0)).toOption.map
+      (fun w' => ((w'.getCv 2).toOption.map (·.waiters), (w'.getMutex 0).toOption.map (·.lock))) =
+      some (some [1], some none) := by
+  constructor <;> decide +kernel
 
 end Ex
 end LoomVerif
